@@ -24,7 +24,7 @@ ADDITIVE_ADT = [("serde helper", lambda k: "::_::" in k or "__Field" in k or "__
 
 
 def subsets():
-    fs = facts.ALL_FEATURES
+    fs = facts.all_features()[0]
     out = []
     for r in range(len(fs) + 1):
         for c in itertools.combinations(fs, r):
@@ -37,7 +37,9 @@ def main(tier):
     run.rule = ("obligation = (configuration, function|ADT|impl of the base configuration) compared for canonical identity, plus "
                 "one obligation per surplus item (must be in an additive family); non-trivial = distinct (config, kind) pairs")
     if tier == "quick":
-        cfgs = [("dev", []), ("dev", ["std", "macros"]), ("dev", ["std", "macros", "par_iter", "deser"]), ("dev", ["par_iter"]), ("dev", ["deser"])]
+        names, default = facts.all_features()
+        cfgs = [("dev", []), ("dev", default), ("dev", names)] + [("dev", [f_]) for f_ in names if f_ not in default]
+        cfgs = [c for i, c in enumerate(cfgs) if c not in cfgs[:i]]
     else:
         cfgs = [(p, s) for p in ("dev", "rel") for s in subsets()]
     # export in parallel (4 at a time; each is its own cargo invocation with its own target dir)
